@@ -679,6 +679,7 @@ func (x *Exec) applyContract(st *State, fr *Frame, callee *ssa.Function, con *Co
 		// (also calls made from inlined callees and closures of the function under verification)
 		nm := funcName(callee)
 		st.ghost["called:"+nm] = "true"
+		st.ghost["ncalls:"+nm] = st.ghost["ncalls:"+nm] + "i"
 		if st.callVals == nil {
 			st.callVals = map[string]Val{}
 		}
